@@ -44,6 +44,7 @@ type Exec struct {
 	groups            map[string][][]Term
 	memoHits          int
 	noMemo            bool
+	freshRes          map[string]int // symbols of results of fresh callees -> creation number
 	pathCap           int
 	capHit            bool
 	lastAppendTrivial bool
@@ -224,6 +225,10 @@ func (ex *Exec) freshSince(t Term, watermark int) bool {
 	}
 	m := allocSymRe.FindStringSubmatch(s)
 	if m == nil {
+		// the result of a callee whose contract says "fresh" is an allocation as well
+		if n, ok := ex.freshRes[s]; ok {
+			return n > watermark
+		}
 		return false
 	}
 	n, _ := strconv.Atoi(m[1])
